@@ -203,6 +203,22 @@ class _Arcs:
     def M(self, a):
         return z3.If(self.has(a), self.mat(a), _zeroM)
 
+    def __pyvc_getattr__(self, it, name, node):
+        if name == "items":
+            return I.Native("items", lambda i2, a, kw: [(x, LA(self.mat(x.e))) for x in self.__pyvc_iter__(i2)])
+        if name == "keys":
+            return I.Native("keys", lambda i2, a, kw: self.__pyvc_iter__(i2))
+        raise I.OutOfSubset(f"attribute {name} of an arcs map")
+
+    def __pyvc_iter__(self, it):
+        # iterating one automaton's own symbols (soundness of the witnesses does not depend on which symbols are explored)
+        out = []
+        for n in ("a1", "a2"):
+            a = z3.Int(n)
+            it.path.assume(self.has(a))
+            out.append(I.Z(a))
+        return out
+
 
 class _Alphabet:
     """set(self.arcs) | set(B.arcs): two successive generic symbols."""
@@ -222,7 +238,7 @@ class _Alphabet:
         out = []
         for n in ("a1", "a2"):
             a = z3.Int(n)
-            it.path.assume(z3.Or(*[p.has(a) for p in self.parts])) if hasattr(it.path, "assume") else None
+            it.path.assume(z3.Or(*[p.has(a) for p in self.parts]))
             out.append(I.Z(a))
         return out
 
